@@ -556,7 +556,8 @@ def _structure_union(data: Any, union_type: type) -> Any:
                 _register_structure_hooks_recursively(variant)
                 return converter.structure(data, variant)
             except Exception as e:
-                errors.append((variant.__name__, str(e)))
+                # Not str(e): for a nested validation error that is only "While structuring X (1 sub-exception)"
+                errors.append((variant.__name__, "; ".join(_extract_errors(e))))
                 continue
 
         # If no dataclass matched and dict fallback is available, return raw dict
@@ -592,7 +593,7 @@ def _structure_union(data: Any, union_type: type) -> Any:
             return converter.structure(data, variant)
         except Exception as e:  # nosec B112 - intentional: trying variants until one succeeds
             variant_name = getattr(variant, "__name__", str(variant))
-            other_errors.append((variant_name, str(e)))
+            other_errors.append((variant_name, "; ".join(_extract_errors(e))))
             continue
 
     # Last resort: if dict fallback is available and we have dict data
